@@ -8,6 +8,7 @@ package main
 // live in a new overlay package (public API only).
 
 import (
+	"os"
 	"fmt"
 	"go/types"
 	"path/filepath"
@@ -29,12 +30,12 @@ type raceSubject struct {
 
 var raceSubjects = []raceSubject{
 	{Name: "AIMD", Pkg: "limit", Type: "AIMDLimit", Setup: []string{`x := limit.NewAIMDLimit("x", 10, 0.9, 1, nil)`}},
-	{Name: "Vegas", Pkg: "limit", Type: "VegasLimit", Setup: []string{`x := limit.NewDefaultVegasLimitWithLimit("x", 10, nil, nil)`}},
-	{Name: "Gradient", Pkg: "limit", Type: "GradientLimit", Setup: []string{`x := limit.NewGradientLimitWithRegistry("x", 10, 1, 100, 0.2, nil, 2.0, -1, nil, nil)`}},
+	{Name: "Vegas", Pkg: "limit", Type: "VegasLimit", Setup: []string{`x := limit.NewDefaultVegasLimitWithLimit("x", 10, nil, nil)`, `limit.VerifSymbolicVegas(x)`}},
+	{Name: "Gradient", Pkg: "limit", Type: "GradientLimit", Setup: []string{`x := limit.NewGradientLimitWithRegistry("x", 10, 1, 100, 0.2, nil, 2.0, -1, nil, nil)`, `limit.VerifSymbolicGradient(x)`}},
 	{Name: "Gradient2", Pkg: "limit", Type: "Gradient2Limit", Setup: []string{`x := limit.NewDefaultGradient2Limit("x", nil, nil)`}},
 	{Name: "Settable", Pkg: "limit", Type: "SettableLimit", Setup: []string{`x := limit.NewSettableLimit("x", 10, nil)`}},
 	{Name: "Fixed", Pkg: "limit", Type: "FixedLimit", Setup: []string{`x := limit.NewFixedLimit("x", 10, nil)`}},
-	{Name: "Windowed", Pkg: "limit", Type: "WindowedLimit", Setup: []string{`x := limit.NewDefaultWindowedLimit("x", limit.NewAIMDLimit("d", 10, 0.9, 1, nil), nil)`}},
+	{Name: "Windowed", Pkg: "limit", Type: "WindowedLimit", Setup: []string{`x := limit.NewDefaultWindowedLimit("x", limit.NewAIMDLimit("d", 10, 0.9, 1, nil), nil)`, `limit.VerifSymbolicWindowed(x)`}},
 	{Name: "Traced", Pkg: "limit", Type: "TracedLimit", Setup: []string{`x := limit.NewTracedLimit(limit.NewAIMDLimit("d", 10, 0.9, 1, nil), limit.NoopLimitLogger{})`}},
 	{Name: "Simple", Pkg: "strategy", Type: "SimpleStrategy", Setup: []string{`x := strategy.NewSimpleStrategy(2)`}},
 	{Name: "Precise", Pkg: "strategy", Type: "PreciseStrategy", Setup: []string{`x := strategy.NewPreciseStrategy(2)`}},
@@ -50,6 +51,7 @@ var raceSubjects = []raceSubject{
 		Extra: []string{"pa|strategy|PredicatePartition"}},
 	{Name: "DefaultLimiter", Pkg: "limiter", Type: "DefaultLimiter", Setup: []string{
 		`x, _ := limiter.NewDefaultLimiter(limit.NewAIMDLimit("d", 10, 0.9, 1, nil), 1, 1, 0, 10, strategy.NewSimpleStrategy(10), limit.NoopLimitLogger{}, core.EmptyMetricRegistryInstance)`,
+		`limiter.VerifSymbolicState(x)`,
 		`l1, _ := x.Acquire(context.Background())`,
 		`l2, _ := x.Acquire(context.Background())`},
 		Extra: []string{"l1.(*limiter.DefaultListener)|limiter|DefaultListener", "l2.(*limiter.DefaultListener)|limiter|DefaultListener"}},
@@ -202,7 +204,7 @@ func genC17(cfg *Config, overlay map[string][]byte, quick bool) (int, []string, 
 			for j := i; j < len(calls); j++ {
 				n++
 				tier := "quick"
-				fmt.Fprintf(&sb, "// VerifC17_%s_%d: %s  ||  %s\n//\n//verif:harness property=C17 theory=real tier=%s race=1 maxpasses=4 unwind=3 unwindcut=1 clock=frozen timeout=20 pair=%s\n", s.Name, n, calls[i].Label, calls[j].Label, tier,
+				fmt.Fprintf(&sb, "// VerifC17_%s_%d: %s  ||  %s\n//\n//verif:harness property=C17 theory=real tier=%s race=1 maxpasses=4 unwind=3 unwindcut=1 clock=free timeout=20 pair=%s\n", s.Name, n, calls[i].Label, calls[j].Label, tier,
 					strings.ReplaceAll(calls[i].Label+"||"+calls[j].Label, " ", ""))
 				fmt.Fprintf(&sb, "func VerifC17_%s_%d() {\n", s.Name, n)
 				for _, st := range s.Setup {
@@ -223,5 +225,8 @@ func genC17(cfg *Config, overlay map[string][]byte, quick bool) (int, []string, 
 		}
 	}
 	overlay[filepath.Join(cfg.Repo, "zz_verifc17", "gen.go")] = []byte(sb.String())
+	if d := os.Getenv("VERIF_DUMP_C17"); d != "" {
+		os.WriteFile(d, []byte(sb.String()), 0644)
+	}
 	return n, allSkipped, nil
 }
